@@ -205,11 +205,43 @@ pub fn srandom(count: usize, len: usize, seed: u64) -> Vec<SProgram> {
     out
 }
 
+/// growth refused by the arena in the middle of an operation (the arena is capped at what it holds):
+/// whatever happens (an out-of-memory panic is legitimate), the string stays valid UTF-8
+pub fn snogrow() -> Vec<SProgram> {
+    use SOp::*;
+    let mut out = Vec::new();
+    for lead in 0..4usize {
+        for cap in [0i64, 1, 2, 3, 4, 5, 8] {
+            for &c in &ALPHA {
+                let mut ops = vec![New { cap }];
+                for _ in 0..lead {
+                    ops.push(Push { c: 0x61 });
+                }
+                ops.push(ArenaNoGrow { on: true });
+                for _ in 0..6 {
+                    ops.push(Push { c });
+                }
+                ops.push(PushStr { s: vec![0xE9, c, 0x61] });
+                ops.push(Insert { i: 0, c });
+                ops.push(InsertStr { i: 1, s: vec![c, c] });
+                ops.push(Extend { s: vec![c, 0x20AC] });
+                ops.push(ReplaceRange { r: Rg { sk: 1, s: 0, ek: 2, e: 1 }, s: vec![c, c, c] });
+                ops.push(ArenaNoGrow { on: false });
+                ops.push(Push { c });
+                ops.push(Pop);
+                out.push(SProgram { ops, tag: "snogrow".into() });
+            }
+        }
+    }
+    out
+}
+
 pub fn by_name(name: &str, tier: &str, seed: u64) -> Vec<SProgram> {
     let thorough = tier == "thorough";
     match name {
         "sops" => sops(3, if thorough { 1 } else { 16 }),
         "spanics" => spanics(3),
+        "snogrow" => snogrow(),
         "decoders" => decoders(thorough, seed),
         "srandom" => srandom(if thorough { 3000 } else { 300 }, 30, seed),
         _ => panic!("unknown generator {name}"),
